@@ -181,19 +181,17 @@ theorem rdnss_too_many (life : UInt32) (servers : List Bytes) (h : 16 ≤ server
   omega
 
 /-- one option of the list: the dispatch of `o.marshal()` -/
-abbrev optEnc (e1 : G_DNSSearchList → Outcome Bytes) (e2 : G_PrefixInformation → Outcome Bytes)
-    (e4 : G_RouteInformation → Outcome Bytes) (o : I_Option) : Outcome Bytes :=
-  genOption_marshal e1 e2 e4 o
+abbrev optEnc (e1 : G_DNSSearchList → Outcome Bytes) (o : I_Option) : Outcome Bytes :=
+  genOption_marshal e1 o
 
 theorem idxL_nat {α : Type} (xs : List α) (k : Nat) (h : k < xs.length) : idxL xs (k : Int) = .ok xs[k] := by
   unfold idxL
   simp [h]
 
-theorem optionsLoop_eq (e1 : G_DNSSearchList → Outcome Bytes) (e2 : G_PrefixInformation → Outcome Bytes)
-    (e4 : G_RouteInformation → Outcome Bytes) (options : List I_Option) :
+theorem optionsLoop_eq (e1 : G_DNSSearchList → Outcome Bytes) (options : List I_Option) :
     ∀ (fuel k : Nat) (b : Bytes), k ≤ options.length → options.length - k < fuel →
-      genmarshalOptions_loop1 e1 e2 e4 options fuel (k : Int) b =
-        (do let r ← optionsMarshal ((options.drop k).map (optEnc e1 e2 e4)); pure (b ++ r)) := by
+      genmarshalOptions_loop1 e1 options fuel (k : Int) b =
+        (do let r ← optionsMarshal ((options.drop k).map (optEnc e1)); pure (b ++ r)) := by
   intro fuel
   induction fuel with
   | zero => intro k b _ h; omega
@@ -207,12 +205,12 @@ theorem optionsLoop_eq (e1 : G_DNSSearchList → Outcome Bytes) (e2 : G_PrefixIn
         exact List.drop_eq_getElem_cons hlt
       rw [hd]
       simp only [Outcome.bind_ok, List.map_cons, optionsMarshal, optEnc]
-      cases genOption_marshal e1 e2 e4 options[k] with
+      cases genOption_marshal e1 options[k] with
       | ok ob =>
         simp only [Outcome.bind_ok]
         have := ih (k + 1) (b ++ ob) (by omega) (by omega)
         rw [show ((k : Int) + 1) = ((k + 1 : Nat) : Int) by omega, this]
-        cases optionsMarshal (List.map (optEnc e1 e2 e4) (List.drop (k + 1) options)) <;> simp
+        cases optionsMarshal (List.map (optEnc e1) (List.drop (k + 1) options)) <;> simp
       | err e => rfl
       | panic => rfl
       | hang => rfl
@@ -221,21 +219,19 @@ theorem optionsLoop_eq (e1 : G_DNSSearchList → Outcome Bytes) (e2 : G_PrefixIn
       rw [if_neg hi, hd]
       simp [optionsMarshal]
 
-theorem marshalOptions_tie (e1 : G_DNSSearchList → Outcome Bytes) (e2 : G_PrefixInformation → Outcome Bytes)
-    (e4 : G_RouteInformation → Outcome Bytes) (options : List I_Option) :
-    genmarshalOptions e1 e2 e4 options = optionsMarshal (options.map (optEnc e1 e2 e4)) := by
+theorem marshalOptions_tie (e1 : G_DNSSearchList → Outcome Bytes) (options : List I_Option) :
+    genmarshalOptions e1 options = optionsMarshal (options.map (optEnc e1)) := by
   unfold genmarshalOptions
-  have := optionsLoop_eq e1 e2 e4 options (options.length + 1) 0 [] (by omega) (by omega)
+  have := optionsLoop_eq e1 options (options.length + 1) 0 [] (by omega) (by omega)
   simp only [Int.natCast_zero] at this
   simp only [this, List.drop_zero, List.nil_append]
-  cases optionsMarshal (List.map (optEnc e1 e2 e4) options) <;> rfl
+  cases optionsMarshal (List.map (optEnc e1) options) <;> rfl
 
-theorem rs_tie (e1 : G_DNSSearchList → Outcome Bytes) (e2 : G_PrefixInformation → Outcome Bytes)
-    (e4 : G_RouteInformation → Outcome Bytes) (rs : G_RouterSolicitation) :
-    genRouterSolicitation_marshal e1 e2 e4 rs = rsMarshal (rs.Options.map (optEnc e1 e2 e4)) := by
+theorem rs_tie (e1 : G_DNSSearchList → Outcome Bytes) (rs : G_RouterSolicitation) :
+    genRouterSolicitation_marshal e1 rs = rsMarshal (rs.Options.map (optEnc e1)) := by
   unfold genRouterSolicitation_marshal rsMarshal genRouterSolicitation_Type
   rw [marshalOptions_tie]
-  cases optionsMarshal (List.map (optEnc e1 e2 e4) rs.Options) <;> simp [makeBytes, intToUInt8, List.replicate]
+  cases optionsMarshal (List.map (optEnc e1) rs.Options) <;> simp [makeBytes, intToUInt8, List.replicate]
 
 theorem idxI_1 (a b : UInt8) (r : Bytes) : idxI (a :: b :: r) 1 = .ok b := by
   unfold idxI
@@ -252,102 +248,126 @@ theorem checkPreference_err (p : Int) (h : ¬ (p = 0 ∨ p = 1 ∨ p = 3)) : gen
   by_cases h2 : p = 2 <;> simp [h2]
 
 /-- the valid-preference part of `ra_tie`, preference 0 (16 flag combinations) -/
-theorem ra_tie_p0 (e1 : G_DNSSearchList → Outcome Bytes) (e2 : G_PrefixInformation → Outcome Bytes)
-    (e4 : G_RouteInformation → Outcome Bytes) (ra : G_RouterAdvertisement)
+theorem ra_tie_p0 (e1 : G_DNSSearchList → Outcome Bytes) (ra : G_RouterAdvertisement)
     (h : ra.RouterSelectionPreference = 0) :
-    genRouterAdvertisement_marshal e1 e2 e4 ra =
+    genRouterAdvertisement_marshal e1 ra =
       raMarshal ra.CurrentHopLimit ra.ManagedConfiguration ra.OtherConfiguration ra.MobileIPv6HomeAgent
         0 ra.NeighborDiscoveryProxy (durSecondsU16 ra.RouterLifetime)
         (intToUInt32 (Int.tdiv ra.ReachableTime 1000000)) (intToUInt32 (Int.tdiv ra.RetransmitTimer 1000000))
-        (ra.Options.map (optEnc e1 e2 e4)) := by
+        (ra.Options.map (optEnc e1)) := by
   unfold genRouterAdvertisement_marshal raMarshal genRouterAdvertisement_Type
   rw [h, checkPreference_ok _ (by omega), if_pos (by omega), marshalOptions_tie]
-  generalize optionsMarshal (List.map (optEnc e1 e2 e4) ra.Options) = X
+  generalize optionsMarshal (List.map (optEnc e1) ra.Options) = X
   cases ra.ManagedConfiguration <;> cases ra.OtherConfiguration <;> cases ra.MobileIPv6HomeAgent <;>
   cases ra.NeighborDiscoveryProxy <;>
   simp [makeBytes, List.replicate, setI_0, setI_1, idxI_1, putBE16I, putBE32I, pokeAt, intToUInt8, raFlags, be32Bytes]
 
 /-- the valid-preference part of `ra_tie`, preference 1 (16 flag combinations) -/
-theorem ra_tie_p1 (e1 : G_DNSSearchList → Outcome Bytes) (e2 : G_PrefixInformation → Outcome Bytes)
-    (e4 : G_RouteInformation → Outcome Bytes) (ra : G_RouterAdvertisement)
+theorem ra_tie_p1 (e1 : G_DNSSearchList → Outcome Bytes) (ra : G_RouterAdvertisement)
     (h : ra.RouterSelectionPreference = 1) :
-    genRouterAdvertisement_marshal e1 e2 e4 ra =
+    genRouterAdvertisement_marshal e1 ra =
       raMarshal ra.CurrentHopLimit ra.ManagedConfiguration ra.OtherConfiguration ra.MobileIPv6HomeAgent
         1 ra.NeighborDiscoveryProxy (durSecondsU16 ra.RouterLifetime)
         (intToUInt32 (Int.tdiv ra.ReachableTime 1000000)) (intToUInt32 (Int.tdiv ra.RetransmitTimer 1000000))
-        (ra.Options.map (optEnc e1 e2 e4)) := by
+        (ra.Options.map (optEnc e1)) := by
   unfold genRouterAdvertisement_marshal raMarshal genRouterAdvertisement_Type
   rw [h, checkPreference_ok _ (by omega), if_pos (by omega), marshalOptions_tie]
-  generalize optionsMarshal (List.map (optEnc e1 e2 e4) ra.Options) = X
+  generalize optionsMarshal (List.map (optEnc e1) ra.Options) = X
   cases ra.ManagedConfiguration <;> cases ra.OtherConfiguration <;> cases ra.MobileIPv6HomeAgent <;>
   cases ra.NeighborDiscoveryProxy <;>
   simp [makeBytes, List.replicate, setI_0, setI_1, idxI_1, putBE16I, putBE32I, pokeAt, intToUInt8, raFlags, be32Bytes]
 
 /-- the valid-preference part of `ra_tie`, preference 3 (16 flag combinations) -/
-theorem ra_tie_p3 (e1 : G_DNSSearchList → Outcome Bytes) (e2 : G_PrefixInformation → Outcome Bytes)
-    (e4 : G_RouteInformation → Outcome Bytes) (ra : G_RouterAdvertisement)
+theorem ra_tie_p3 (e1 : G_DNSSearchList → Outcome Bytes) (ra : G_RouterAdvertisement)
     (h : ra.RouterSelectionPreference = 3) :
-    genRouterAdvertisement_marshal e1 e2 e4 ra =
+    genRouterAdvertisement_marshal e1 ra =
       raMarshal ra.CurrentHopLimit ra.ManagedConfiguration ra.OtherConfiguration ra.MobileIPv6HomeAgent
         3 ra.NeighborDiscoveryProxy (durSecondsU16 ra.RouterLifetime)
         (intToUInt32 (Int.tdiv ra.ReachableTime 1000000)) (intToUInt32 (Int.tdiv ra.RetransmitTimer 1000000))
-        (ra.Options.map (optEnc e1 e2 e4)) := by
+        (ra.Options.map (optEnc e1)) := by
   unfold genRouterAdvertisement_marshal raMarshal genRouterAdvertisement_Type
   rw [h, checkPreference_ok _ (by omega), if_pos (by omega), marshalOptions_tie]
-  generalize optionsMarshal (List.map (optEnc e1 e2 e4) ra.Options) = X
+  generalize optionsMarshal (List.map (optEnc e1) ra.Options) = X
   cases ra.ManagedConfiguration <;> cases ra.OtherConfiguration <;> cases ra.MobileIPv6HomeAgent <;>
   cases ra.NeighborDiscoveryProxy <;>
   simp [makeBytes, List.replicate, setI_0, setI_1, idxI_1, putBE16I, putBE32I, pokeAt, intToUInt8, raFlags, be32Bytes]
 
-theorem ra_tie (e1 : G_DNSSearchList → Outcome Bytes) (e2 : G_PrefixInformation → Outcome Bytes)
-    (e4 : G_RouteInformation → Outcome Bytes) (ra : G_RouterAdvertisement) :
-    genRouterAdvertisement_marshal e1 e2 e4 ra =
+theorem ra_tie (e1 : G_DNSSearchList → Outcome Bytes) (ra : G_RouterAdvertisement) :
+    genRouterAdvertisement_marshal e1 ra =
       raMarshal ra.CurrentHopLimit ra.ManagedConfiguration ra.OtherConfiguration ra.MobileIPv6HomeAgent
         ra.RouterSelectionPreference ra.NeighborDiscoveryProxy (durSecondsU16 ra.RouterLifetime)
         (intToUInt32 (Int.tdiv ra.ReachableTime 1000000)) (intToUInt32 (Int.tdiv ra.RetransmitTimer 1000000))
-        (ra.Options.map (optEnc e1 e2 e4)) := by
+        (ra.Options.map (optEnc e1)) := by
   by_cases hp : ra.RouterSelectionPreference = 0 ∨ ra.RouterSelectionPreference = 1 ∨ ra.RouterSelectionPreference = 3
   · rcases hp with h | h | h
-    · rw [ra_tie_p0 e1 e2 e4 ra h, h]
-    · rw [ra_tie_p1 e1 e2 e4 ra h, h]
-    · rw [ra_tie_p3 e1 e2 e4 ra h, h]
+    · rw [ra_tie_p0 e1 ra h, h]
+    · rw [ra_tie_p1 e1 ra h, h]
+    · rw [ra_tie_p3 e1 ra h, h]
   · unfold genRouterAdvertisement_marshal raMarshal
     rw [checkPreference_err _ hp, if_neg hp]
     rfl
 
+/-! ### `(*PrefixInformation).marshal` -/
+
+theorem copy_tail16 (H s : Bytes) (hH : H.length = 14) :
+    copyI (H ++ List.replicate 16 0) 14 30 s = .ok (H ++ pad16 s, ((s.take 16).length : Int)) := by
+  have := copy_slot H s 0
+  simp only [hH, Nat.zero_add, Nat.mul_one, Nat.mul_zero, List.replicate_zero, List.append_nil] at this
+  exact this
+
+theorem copy_tail16c (a0 a1 a2 a3 a4 a5 a6 a7 a8 a9 a10 a11 a12 a13 : UInt8) (s : Bytes) :
+    copyI (a0 :: a1 :: a2 :: a3 :: a4 :: a5 :: a6 :: a7 :: a8 :: a9 :: a10 :: a11 :: a12 :: a13 ::
+        [0, 0, 0, 0, 0, 0, 0, 0, 0, 0, 0, 0, 0, 0, 0, 0]) 14 30 s =
+      .ok (a0 :: a1 :: a2 :: a3 :: a4 :: a5 :: a6 :: a7 :: a8 :: a9 :: a10 :: a11 :: a12 :: a13 :: pad16 s,
+        ((s.take 16).length : Int)) :=
+  copy_tail16 [a0, a1, a2, a3, a4, a5, a6, a7, a8, a9, a10, a11, a12, a13] s rfl
+
+theorem make30 : makeBytes 30 = .ok ((0 : UInt8) :: 0 :: 0 :: 0 :: 0 :: 0 :: 0 :: 0 :: 0 :: 0 :: 0 :: 0 :: 0 :: 0 :: List.replicate 16 0) := by
+  unfold makeBytes
+  rfl
+
+theorem pi_tie (v : G_PrefixInformation) :
+    genPrefixInformation_marshal v = prefixInfoMarshal v.PrefixLength v.OnLink v.AutonomousAddressConfiguration
+      (durSecondsU32 v.ValidLifetime) (durSecondsU32 v.PreferredLifetime) v.Prefix
+      (ipEqual v.Prefix (ipMask v.Prefix (cidrMask (v.PrefixLength.toNat : Int) 128))) := by
+  unfold genPrefixInformation_marshal prefixInfoMarshal genPrefixInformation_Code
+  cases hm : ipEqual v.Prefix (ipMask v.Prefix (cidrMask (v.PrefixLength.toNat : Int) 128))
+  · simp [hm]
+  · cases v.OnLink <;> cases v.AutonomousAddressConfiguration <;>
+    simp [hm, make30, setI_0, setI_1, idxI_1, putBE32I, pokeAt, copy_tail16c, rawOption_tie, rawOptMarshal, pad16_length, be32Bytes]
+
 /-! ### `o.marshal()`: which encoder each dynamic type reaches -/
 
-theorem option_dispatch (e1 : G_DNSSearchList → Outcome Bytes) (e2 : G_PrefixInformation → Outcome Bytes)
-    (e4 : G_RouteInformation → Outcome Bytes) :
-    optEnc e1 e2 e4 .nil_ = .panic ∧
-    (∀ v, optEnc e1 e2 e4 (.LinkLayerAddress v) = llaMarshal v.Direction v.MAC) ∧
-    (∀ v, optEnc e1 e2 e4 (.MTU v) = mtuMarshal v) ∧
-    (∀ v, optEnc e1 e2 e4 (.RawOption v) = rawOptMarshal v.Type' v.Length v.Value) ∧
-    (∀ v, optEnc e1 e2 e4 (.DNSSearchList v) = e1 v) ∧
-    (∀ v, optEnc e1 e2 e4 (.PrefixInformation v) = e2 v) ∧
-    (∀ v, optEnc e1 e2 e4 (.RecursiveDNSServer v) = rdnssMarshal (durSecondsU32 v.Lifetime) v.Servers) ∧
-    (∀ v, optEnc e1 e2 e4 (.RouteInformation v) = e4 v) :=
-  ⟨rfl, fun v => lla_tie v, fun v => mtu_tie v, fun v => rawOption_tie v, fun _ => rfl, fun _ => rfl, fun v => rdnss_tie v, fun _ => rfl⟩
+theorem option_dispatch (e1 : G_DNSSearchList → Outcome Bytes) :
+    optEnc e1 .nil_ = .panic ∧
+    (∀ v, optEnc e1 (.LinkLayerAddress v) = llaMarshal v.Direction v.MAC) ∧
+    (∀ v, optEnc e1 (.MTU v) = mtuMarshal v) ∧
+    (∀ v, optEnc e1 (.RawOption v) = rawOptMarshal v.Type' v.Length v.Value) ∧
+    (∀ v, optEnc e1 (.DNSSearchList v) = e1 v) ∧
+    (∀ v, optEnc e1 (.PrefixInformation v) = prefixInfoMarshal v.PrefixLength v.OnLink v.AutonomousAddressConfiguration
+      (durSecondsU32 v.ValidLifetime) (durSecondsU32 v.PreferredLifetime) v.Prefix
+      (ipEqual v.Prefix (ipMask v.Prefix (cidrMask (v.PrefixLength.toNat : Int) 128)))) ∧
+    (∀ v, optEnc e1 (.RecursiveDNSServer v) = rdnssMarshal (durSecondsU32 v.Lifetime) v.Servers) ∧
+    (∀ v, optEnc e1 (.RouteInformation v) = genRouteInformation_marshal v) :=
+  ⟨rfl, fun v => lla_tie v, fun v => mtu_tie v, fun v => rawOption_tie v, fun _ => rfl, fun v => pi_tie v, fun v => rdnss_tie v, fun _ => rfl⟩
 
 /-- the message `ICMP6SendRouterSolicitation` builds (one source link-layer address option with the NIC's MAC): for
     every 6-byte MAC it is the 16-byte router solicitation of RFC 4861 4.1 -/
-theorem rs_with_source_lla (e1 : G_DNSSearchList → Outcome Bytes) (e2 : G_PrefixInformation → Outcome Bytes)
-    (e4 : G_RouteInformation → Outcome Bytes) (src mac : Bytes) (h : mac.length = 6) :
-    genRouterSolicitation_marshal e1 e2 e4 { SourceLLA := src, Options := [.LinkLayerAddress { Direction := 1, MAC := mac }] } =
+theorem rs_with_source_lla (e1 : G_DNSSearchList → Outcome Bytes) (src mac : Bytes) (h : mac.length = 6) :
+    genRouterSolicitation_marshal e1 { SourceLLA := src, Options := [.LinkLayerAddress { Direction := 1, MAC := mac }] } =
       .ok ([133, 0, 0, 0, 0, 0, 0, 0, 1, 1] ++ mac) := by
   rw [rs_tie]
-  simp [rsMarshal, optionsMarshal, (option_dispatch e1 e2 e4).2.1, llaMarshal, h]
+  simp [rsMarshal, optionsMarshal, (option_dispatch e1).2.1, llaMarshal, h]
 
 /-- a MAC of another length makes the solicitation fail with an error: nothing is sent -/
-theorem rs_bad_mac (e1 : G_DNSSearchList → Outcome Bytes) (e2 : G_PrefixInformation → Outcome Bytes)
-    (e4 : G_RouteInformation → Outcome Bytes) (src mac : Bytes) (h : mac.length ≠ 6) :
-    genRouterSolicitation_marshal e1 e2 e4 { SourceLLA := src, Options := [.LinkLayerAddress { Direction := 1, MAC := mac }] } =
+theorem rs_bad_mac (e1 : G_DNSSearchList → Outcome Bytes) (src mac : Bytes) (h : mac.length ≠ 6) :
+    genRouterSolicitation_marshal e1 { SourceLLA := src, Options := [.LinkLayerAddress { Direction := 1, MAC := mac }] } =
       .err .other := by
   rw [rs_tie]
-  simp [rsMarshal, optionsMarshal, (option_dispatch e1 e2 e4).2.1, llaMarshal, h]
+  simp [rsMarshal, optionsMarshal, (option_dispatch e1).2.1, llaMarshal, h]
 
 /-- non-vacuity: a router advertisement with hop limit 64, lifetime 1800 s, an MTU option and a source LLA -/
-example : genRouterAdvertisement_marshal (fun _ => .err .other) (fun _ => .err .other) (fun _ => .err .other)
+example : genRouterAdvertisement_marshal (fun _ => .err .other)
     { CurrentHopLimit := 64, ManagedConfiguration := false, OtherConfiguration := false, MobileIPv6HomeAgent := false,
       RouterSelectionPreference := 0, NeighborDiscoveryProxy := false, RouterLifetime := 1800000000000, ReachableTime := 0,
       RetransmitTimer := 0, Options := [I_Option.MTU 1500, I_Option.LinkLayerAddress { Direction := 1, MAC := [2, 0, 0, 0, 0, 1] }] } =
@@ -357,20 +377,20 @@ example : genRouterAdvertisement_marshal (fun _ => .err .other) (fun _ => .err .
 
 theorem translated_accounted : marshalTranslated.map (·.1) =
     ["packet.(*RawOption).marshal", "packet.(*LinkLayerAddress).Code", "packet.(*LinkLayerAddress).marshal", "packet.(*MTU).Code",
-     "packet.(*MTU).marshal", "packet.(*PrefixInformation).Code", "packet.(*RouteInformation).Code",
-     "packet.(*RecursiveDNSServer).Code", "packet.(*RecursiveDNSServer).marshal", "packet.(*DNSSearchList).Code", "packet.(Option).marshal", "packet.marshalOptions",
+     "packet.(*MTU).marshal", "packet.(*PrefixInformation).Code", "packet.(*PrefixInformation).marshal",
+     "packet.(*RouteInformation).Code", "packet.(*RouteInformation).marshal", "packet.(*RecursiveDNSServer).Code", "packet.(*RecursiveDNSServer).marshal", "packet.(*DNSSearchList).Code", "packet.(Option).marshal", "packet.marshalOptions",
      "packet.(*RouterSolicitation).Type", "packet.(*RouterSolicitation).marshal", "packet.(*RouterAdvertisement).Type",
      "packet.checkPreference", "packet.(*RouterAdvertisement).marshal"] := by decide
 
 theorem untranslated_accounted : marshalUntranslated.map (·.1) =
-    ["packet.(*PrefixInformation).marshal", "packet.(*RouteInformation).marshal", "packet.(*DNSSearchList).marshal"] := by decide
+    ["packet.(*DNSSearchList).marshal"] := by decide
 
-/-- the external callees are exactly the three untranslated option encoders, taken by the dispatch and passed down -/
+/-- the external callee is exactly the one untranslated option encoder, taken by the dispatch and passed down -/
 theorem externals_accounted : (marshalExternals.map (fun e => e.2.2.1)).eraseDups =
-    ["packet.(*DNSSearchList).marshal", "packet.(*PrefixInformation).marshal", "packet.(*RouteInformation).marshal"] := by decide
+    ["packet.(*DNSSearchList).marshal"] := by decide
 
 theorem assumptions_accounted : marshalAssumptions.map (·.1) =
-    ["capEqLen", "durSeconds", "errDropsResults", "externMarshalPure", "intNoOverflow", "noAlias", "recvNonNil", "stdStringTotal"] := by
+    ["capEqLen", "durSeconds", "errDropsResults", "externMarshalPure", "intNoOverflow", "netIPDict", "noAlias", "recvNonNil", "stdStringTotal"] := by
   decide
 
 theorem errs_accounted : marshalErrs.all (fun e => e.2 == Err.other) = true := by decide
